@@ -297,6 +297,21 @@ def solve_forked(args):
                 return str(idx), 'unsat', 'z3-5.1.0(api)', (time.time() - t0) * 1000, None, 'simplifier(som)'
         except z3.Z3Exception:
             pass
+        if not o.expect_sat:
+            # stage 0: quantifier-free hypotheses only, products opaque (sound for unsat: fewer and weaker hypotheses)
+            qf = [a for a in asserts if not _has_quant(a)]
+            if len(qf) < len(asserts) and not _has_quant(asserts[-1]):
+                s0 = z3.Solver(ctx=zc)
+                s0.set('timeout', min(4000, timeout_ms))
+                s0.set('smt.arith.nl', False)
+                s0.add(*qf)
+                if s0.check() == z3.unsat:
+                    return str(idx), 'unsat', 'z3-5.1.0(api)', (time.time() - t0) * 1000, None, 'quantifier-free linear abstraction'
+                s0 = z3.Solver(ctx=zc)
+                s0.set('timeout', min(4000, timeout_ms))
+                s0.add(*qf)
+                if s0.check() == z3.unsat:
+                    return str(idx), 'unsat', 'z3-5.1.0(api)', (time.time() - t0) * 1000, None, 'quantifier-free hypotheses'
         sa = z3.Solver(ctx=zc)
         sa.set('timeout', timeout_ms if o.expect_sat else min(5000, timeout_ms))
         sa.set('smt.arith.nl', False)
